@@ -189,6 +189,7 @@ PROPS = {
     },
     "C04": {
         "lean": ["OxiModel.Props.C04"],
+        "needs_binary": True,
         "streams": [{"name": "corr-decision", "quick": 3000, "thorough": 50000}],
         "oracles": [{"name": "e2e", "args": ["C04"], "quick": 3000, "thorough": 40000},
                     {"name": "oracle-files", "quick": 400, "thorough": 6000}],
